@@ -359,6 +359,42 @@ def b_grid(ctx):
 
 
 
+
+@bounded('C06', 'parameter-setters', shards=1)
+def b_setters(ctx):
+    """a law whose K' or K_p was changed through its public setters (K, K_prime, K_p) returns, from then on, what a law constructed with the new values returns -
+    the value still satisfies the defining equation of the law's OWN parameters (added after seed C06-e let the K setter store the value without rebuilding the
+    Ramberg-Osgood relation)"""
+    import warnings
+    import numpy as np
+    warnings.simplefilter('ignore')
+    E, n = 206e3, 0.187
+    loads = np.array([150.0, 400.0, 900.0, -150.0, -400.0, -900.0])
+    ctx.bound = "both laws, K' 1184 -> 2650.5 via .K and via .K_prime, K_p 3.5 -> 2.0 via .K_p, each after a first evaluation with the old value; 6 loads of both signs; all six forward / backward functions"
+    ctx.rule = "every (law, setter, function) is one case"
+    for name in ('neuber', 'seegerbeste'):
+        for setter, (K0, Kp0), (K1, Kp1) in (('K', (1184.0, 3.5), (2650.5, 3.5)), ('K_prime', (1184.0, 3.5), (2650.5, 3.5)), ('K_p', (1184.0, 3.5), (1184.0, 2.0))):
+            law = dict(_laws(E, K0, n, Kp0))[name]
+            law.stress(loads)                               # a first use with the old parameters
+            setattr(law, setter, K1 if setter != 'K_p' else Kp1)
+            fresh = dict(_laws(E, K1, n, Kp1))[name]
+            if not (law.K == fresh.K and law.K_p == fresh.K_p):
+                ctx.fail(f'C06:setter:{name}:{setter}:attribute', f'{name}: after law.{setter} = ... the law reports K = {law.K}, K_p = {law.K_p}', None)
+            for fname, args in (('stress', (loads,)), ('stress_secondary_branch', (2 * loads,))):
+                ctx.case(True, key=(name, setter, fname))
+                a_, b_ = np.asarray(getattr(law, fname)(*args), dtype=float), np.asarray(getattr(fresh, fname)(*args), dtype=float)
+                if not np.allclose(a_, b_, rtol=1e-9, atol=0):
+                    ctx.fail(f'C06:setter:{name}:{setter}:{fname}', f'{name}: after law.{setter} = {K1 if setter != "K_p" else Kp1}: {fname} = {a_.tolist()}, a law constructed with the new value gives {b_.tolist()}',
+                             f"import numpy as np\nfrom pylife.materiallaws.notch_approximation_law import ExtendedNeuber\nfrom pylife.materiallaws.notch_approximation_law_seegerbeste import SeegerBeste\n"
+                             f"cls = {'SeegerBeste' if name == 'seegerbeste' else 'ExtendedNeuber'}\nlaw = cls({E}, {K0}, {n}, {Kp0}); law.{setter} = {K1 if setter != 'K_p' else Kp1}\nfresh = cls({E}, {K1}, {n}, {Kp1})\n"
+                             f"L = np.array({args[0].tolist()!r})\nprint(law.{fname}(L)); print(fresh.{fname}(L))\nassert np.allclose(law.{fname}(L), fresh.{fname}(L), rtol=1e-9)\n")
+                    continue
+                sfn = 'strain' if fname == 'stress' else 'strain_secondary_branch'
+                e_a, e_b = np.asarray(getattr(law, sfn)(a_, *args), dtype=float), np.asarray(getattr(fresh, sfn)(b_, *args), dtype=float)
+                if not np.allclose(e_a, e_b, rtol=1e-9, atol=0):
+                    ctx.fail(f'C06:setter:{name}:{setter}:{sfn}', f'{name}: after law.{setter} = ...: {sfn} differs from a law constructed with the new value', None)
+    ctx.sample({'law': 'ExtendedNeuber', 'setter': 'K', 'from': 1184.0, 'to': 2650.5})
+
 @bounded('C06', 'mixed-load-arrays', shards=8)
 def b_mixed(ctx):
     """arrays of MANY DIFFERENT loads (the vectorised solver converges for some entries and not for others; the laws then retry entry by entry): every entry of
